@@ -170,12 +170,7 @@ func caseC16Tags(t TB, prog *Program) {
 }
 
 func init() {
-	prev := replayers["C16"]
-	replayers["C16"] = func(t *testing.T, prog *Program) {
-		if _, ok := prog.Aux["tags"]; ok {
-			guardT(t, prog, func() { caseC16Tags(t, prog) })
-			return
-		}
-		prev(t, prog)
-	}
+	replayAlts = append(replayAlts, replayAlt{"C16", hasAux("tags"), func(t *testing.T, prog *Program) {
+		guardT(t, prog, func() { caseC16Tags(t, prog) })
+	}})
 }
